@@ -270,6 +270,7 @@ Definition s_neq : str := [124; 110; 101; 113].  (* |neq *)
 
 Definition aslist (v : mval) : list pv := vals_of v.
 Definition unwrap1 (v : mval) : mval := match v with MMany [x] => MOne x | _ => v end.
+Definition is_empty_list (v : mval) : bool := match v with MMany [] => true | _ => false end.
 Definition is_many (v : mval) : bool := match v with MMany _ => true | _ => false end.
 
 Fixpoint md_get (k : str) (md : list (str * mval)) : option mval :=
@@ -295,6 +296,7 @@ Definition merge_step (md : list (str * mval)) (kv : str * mval) : outcome (list
   | None => Ok (md_set k v md)
   | Some ev =>
     if infixb s_neq k then SigmaErr E_Value
+    else if is_empty_list v || is_empty_list ev then SigmaErr E_Value
     else if infixb s_all k then Ok (md_set k (MMany (aslist ev ++ aslist v)) md)
     else
       let ev' := unwrap1 ev in
